@@ -62,6 +62,7 @@ def floors(ctx):
     f["protohighest"] = 5
     f["cases_with_dill_options"] = 50
     f["via_dump_file"] = 10
+    f["via_dump_sink"] = 10
     for l in ("pickle", "dill"):
         for w in ("same", "fresh"):
             for c in ("cache_on", "cache_off"):
@@ -182,6 +183,15 @@ def pick_root(rng, objs, kind):
 DILL_KW = [{}, {}, {"recurse": True}, {"byref": True}, {"fmode": 0}, {"byref": False, "recurse": False}]
 
 
+class _KeepingSink:
+    def __init__(self):
+        self.chunks = []
+
+    def write(self, data):
+        self.chunks.append(data)
+        return len(data)
+
+
 def dump_bytes(root, proto, via, low_recursion=False, kw=None):
     old = sys.getrecursionlimit()
     if low_recursion:
@@ -200,6 +210,12 @@ def dump_bytes(root, proto, via, low_recursion=False, kw=None):
                     return fp.read()
             finally:
                 os.unlink(path)
+        if via == "dump_sink":
+            # a file-like object in the sense of the pickle protocol - anything with write() - that KEEPS the pieces it
+            # is given instead of copying them (a queue feeding a consumer thread, a transport, `chunks.append`)
+            sink = _KeepingSink()
+            nrpickler.dump(root, sink, protocol=proto, **kw)
+            return b"".join(bytes(c) for c in sink.chunks)
         f = io.BytesIO()
         nrpickler.dump(root, f, protocol=proto, **kw)
         return f.getvalue()
@@ -415,7 +431,7 @@ def run_case(ctx, rng, cfg, desc, root, objs_all, batch):
 
 def rand_cfg(rng, fresh_p=0.25):
     return {"proto": rng.choice([0, 1, 2, 3, 4, 5, None, -1]), "dill_kw": rng.randrange(len(DILL_KW)),
-            "via": rng.choice(["dumps", "dump", "dump_file"]),
+            "via": rng.choice(["dumps", "dump", "dump_file", "dump_sink"]),
             "loader": rng.choice(["pickle", "dill"]),
             "where": "fresh" if rng.random() < fresh_p else "same", "cache_dump": rng.random() < 0.5,
             "cache_load": rng.random() < 0.5, "warm": rng.choice([False, False, False, True, "then_edit"])}
